@@ -268,7 +268,7 @@ def run(ctx):
     # wide value ranges, multiple trailing dots, unicode-free odd names
     for _ in range(300):
         n = rng.randrange(1, 7)
-        recs = [(rng.choice(["a.b", "a.b.", "host.", "x", "dc.corp.test."]), rng.randrange(0, 65536), rng.randrange(0, 65536), rng.randrange(0, 65536)) for _ in range(n)]
+        recs = [(rng.choice(["a.b", "a.b.", "host.", "x", "dc.corp.test.", ".", ""]), rng.randrange(0, 65536), rng.choice([0, 1, rng.randrange(0, 65536)]), rng.choice([0, 1, rng.randrange(0, 65536)])) for _ in range(n)]
         domain = rng.choice(domains)
         out = impl(domain, recs, rng.random() < 0.5)
         cases.append((opline(domain, recs), out))
